@@ -43,6 +43,8 @@ def dress(m, rng, p=0.6):
             a.chiral = True if rng.random() < 0.1 else None
 
 
+from vmon.oracles import F1_KEY  # noqa: E402
+from vmon.smiles_reader import has_long_percent_run  # noqa: E402
 from vmon.roundtrip import _needs_four_index_symbols  # noqa: E402
 
 
@@ -107,7 +109,12 @@ def run(ctx):
             ctx.case((tname, s), True)
             return x
         r2 = call_guard(lambda: sf.encoder(d[1]), expected=(sf.EncoderError,))
-        if r2[0] != "ok":
+        if (r2[0] != "ok" or r2[1] != x) and r2[0] != "esc" and has_long_percent_run(d[1]):
+            # known finding F1: with 100 or more ring bonds the decoder writes '%100', which no SMILES reader - the
+            # encoder included - reads back as label 100
+            ctx.finding(F1_KEY, dict(payload, selfies=x[:300], decoded=d[1][-200:]),
+                        "re-encoding the decoder's output fails or differs, and that output carries a ring label >= 100")
+        elif r2[0] != "ok":
             ctx.finding("reencoding-fails", dict(payload, selfies=x[:1000], decoded=d[1][:1000]), repr(r2)[:300])
         elif r2[1] != x:
             ctx.finding("reencoding-unstable", dict(payload, selfies=x[:1000], decoded=d[1][:1000], reencoded=r2[1][:1000]),
@@ -198,6 +205,12 @@ def run(ctx):
         s, _, _, _ = spell(m, rng, variants=False)
         check(s, table, "default", "macrocycle")
         check("C1" + "C" * (nring - 2) + "C1" + "C(" + "C" * rng.choice([1, 20, 300]) + ")O", table, "default", "macrocycle-linear")
+    # molecules with 100 or more ring bonds (chains of small rings, label reuse in the input)
+    sf.set_semantic_constraints("default")
+    for k in ([101] if quick else [99, 100, 101, 150, 400]):
+        unit = rng.choice(["C1CC1", "C1CCC1", "N1CC1", "C1OC1C"])
+        check(unit * k, sf.get_semantic_constraints(), "default", "ring-count-%d" % k)
+        ctx.count("molecules_with_100_or_more_rings" if k >= 100 else "molecules_with_99_rings")
     # questionable ring closures: a label that joins two atoms which are bonded already (the digit before or after a
     # branch, at either atom), the same pair twice, an atom with itself - and the legal neighbours of these spellings
     # (label reuse after closing, a real ring through the same positions).  Most are refused; whatever is accepted has
